@@ -142,13 +142,17 @@ class LowLevelParser(Scanner):
     def __init__(
         self, text,
         keyless_entries=False,
-        macros=month_names,
+        macros=None,
         handle_error=None,
         want_entry=None,
         filename=None
     ):
         super(LowLevelParser, self).__init__(text, filename)
         self.keyless_entries = keyless_entries
+        if macros is None:
+            # @string definitions are written into this table:
+            # never hand out the module-level month_names itself
+            macros = dict(month_names)
         self.macros = macros
         if handle_error:
             self.handle_error = handle_error
